@@ -67,8 +67,8 @@ PLAN = {
                R("large-txn", "^TestLargeTxn$", checks=3, timeout=900),
                R("concurrent", "^TestConcurrentReaders$", race=True, env={"C03_CONC_ROUNDS": 2500}, timeout=900)],
         thorough=[REPLAY,
-                  R("snapshots", "^TestSnapshots$", checks=10000, steps=100, shards=16, timeout=3000),
-                  R("large-txn", "^TestLargeTxn$", checks=20, shards=4, env={"C03_LARGE_ROUTES": 9000}, timeout=3000),
+                  R("snapshots", "^TestSnapshots$", checks=2500, steps=80, shards=16, timeout=3000),
+                  R("large-txn", "^TestLargeTxn$", checks=12, shards=4, env={"C03_LARGE_ROUTES": 9000}, timeout=3000),
                   R("concurrent", "^TestConcurrentReaders$", race=True, shards=4, env={"C03_CONC_ROUNDS": 5000}, timeout=3000)],
     ),
     "C04": dict(
